@@ -492,7 +492,13 @@ fn at_end(sc: &Sc, main_finished: bool, default_schedule: bool) {
 	}
 	// P7: in restart and queue modes the last change is followed by a run that started after it
 	if sc.restarts() || sc.mode == Mode::Queue {
-		if let Some(last) = f.changes.last() {
+		// (an injected wait() failure that lands on the wait of a forced stop — after the kill,
+		// before the status was collected — makes that stop, and with it the restart, fail for
+		// good reason; the clause is about failures while the command is simply running)
+		let stop_wait_failed = f.log.iter().enumerate().any(|(i, r)| {
+			matches!(&r.ev, Ev::WaitErr { id, .. } if f.log[..i].iter().any(|x| matches!(&x.ev, Ev::Kill { id: c, .. } if c == id)))
+		});
+		if let Some(last) = f.changes.last().filter(|_| !stop_wait_failed) {
 			if !f.spawns.iter().any(|(p, _)| p > last) {
 				push(
 					format!("C05/{}/no-run-after-last-change", if sc.restarts() { "restart" } else { "queue" }),
